@@ -272,6 +272,9 @@ CORPUS_LINES = ['', '[', ']', '[1.0]', '[1.0] x', '[1.0] x@1', '[1.0] x@1.y', '[
 
 def replay(dis):
     line = dis['input']['line']
-    print('impl :', impl_decode(line))
-    print('model:', common.model_eval('decode', [line], shards=1)[0])
-    return 0
+    i = impl_decode(line)
+    m = common.model_eval('decode', [line], shards=1)[0]
+    print('impl :', i)
+    print('model:', m)
+    print('REPRODUCED' if i != m else 'not reproduced on the current tree')
+    return 1 if i != m else 0
